@@ -48,6 +48,8 @@ PALETTE = [
     ("code_length", "length", "custom"), ("kcode_length", "length", "custom"), ("code_length**2", "area", "custom"),
     ("code_temp", "temperature", "custom_offset"), ("code_mass/code_length**3", "density", "custom"),
     ("code_angle", "angle", "custom"), ("code_mass", "mass", "custom"),
+    # prefixed forms that exist only where the registry re-added the base symbol as prefixable
+    ("mdegF", "temperature", "custom_offset"), ("kft", "length", "custom"), ("mhr", "time", "custom"),
 ]
 CUSTOM_SYMS = ("code_length", "code_temp", "code_mass", "code_angle")
 TARGETS = {
@@ -429,6 +431,19 @@ def gen_registry(r):
     if r.random() < 0.5:
         op["edits"].append({"k": "modify", "sym": r.choice(["m", "ft", "pc", "Msun", "degree", "K"]),
                             "value": r.choice([2.0, 0.5, 3.0])})
+    if r.random() < 0.3:
+        # a default symbol re-added with its default scale and dimensions but another zero point / prefixability
+        sym, dims_, scale_, off_ = r.choice([("lon", "angle", 0.017453292519943295, -3.141592653589793),
+                                             ("lat", "angle", 0.017453292519943295, -1.5707963267948966),
+                                             ("degF", "temperature", 0.5555555555555556, -459.67),
+                                             ("degC", "temperature", 1.0, -273.15),
+                                             ("ft", "length", 0.3048, 0.0), ("hr", "time", 3600.0, 0.0)])
+        e = {"k": "add", "sym": sym, "scale": scale_, "dims": dims_, "offset": off_, "prefixable": False}
+        if off_ != 0.0 and r.random() < 0.6:
+            e["offset"] = r.choice([0.0, off_ + 1.0])
+        else:
+            e["prefixable"] = True
+        op["edits"].append(e)
     if r.random() < 0.35:
         op["edits"].append({"k": "remove", "sym": r.choice(["ft", "pc", "mile", "lb", "Mearth", "hp"])})
     if r.random() < 0.3:
@@ -460,6 +475,10 @@ def gen_run(r, cfg):
     unit, dim, guard = wchoice(r, [(p, weights[p[2]]) for p in pal])
     have = {e["sym"] for e in regop.get("edits", []) if e["k"] == "add"}
     if guard.startswith("custom") and not all(s in have for s in CUSTOM_SYMS if s in unit):
+        unit, dim, guard = "code_length", "length", "custom"
+    need = {"mdegF": "degF", "kft": "ft", "mhr": "hr"}
+    if unit in need and not any(e["k"] == "add" and e["sym"] == need[unit] and e.get("prefixable")
+                                for e in regop.get("edits", [])):
         unit, dim, guard = "code_length", "length", "custom"
     kind = wchoice(r, [("quantity", 4), ("array", 4), ("unit", 1.5)])
     dtype = wchoice(r, [("float64", 6), ("float32", 1), ("int64", 1.5), ("complex128", 0.7), (">f8", 0.5), (">i4", 0.3),
